@@ -1,6 +1,7 @@
 package main
 
 import (
+	"runtime"
 	"encoding/json"
 	"flag"
 	"fmt"
@@ -38,6 +39,7 @@ type Options struct {
 	Seed     int
 	Verbose  bool
 	KeepSMT  string
+	ExpectFail map[string]bool // "function#obligation" of listed known findings (all properties): no retries spent on them
 }
 
 func (e *Engine) verifyFunction(fn *ssa.Function, opt *Options) *FuncResult {
@@ -91,9 +93,38 @@ func (e *Engine) verifyFunction(fn *ssa.Function, opt *Options) *FuncResult {
 		fmt.Fprintf(&axioms, "(assert %s)\n", term)
 	}
 	body := t.decls.String() + axioms.String() + t.out.String()
+	// axioms-only consistency probe: the specification vocabulary (prelude + every axiom) must not be contradictory by
+	// itself. Run once per process with a large budget (an inconsistency of two crypto axioms took z3 25 s to find).
+	axiomProbeOnce.Do(func() {
+		axiomProbeWG.Add(1)
+		go func() {
+			defer axiomProbeWG.Done()
+			txt := t.decls.String() + axioms.String()
+			for _, solver := range []string{"z3-new", "cvc5"} {
+				hdr := e.buildPrelude(solver, txt)
+				if solver == "z3-new" {
+					hdr += fmt.Sprintf("(set-option :rlimit %d)\n", rlimitRetry)
+				}
+				f := writeScratch("axioms_"+solver+".smt2", hdr+txt+"(check-sat)\n")
+				r := runSolverLimited(solver, f, wallRetry)
+				if len(r.lines) > 0 && r.lines[0] == "unsat" && len(r.errors) == 0 {
+					axiomProbeMu.Lock()
+					axiomProbeResult = append(axiomProbeResult, "the axioms of the specification vocabulary are contradictory by themselves ("+solver+")")
+					axiomProbeMu.Unlock()
+				}
+			}
+		}()
+	})
 	e.discharge(res, t, body, opt)
 	return res
 }
+
+var (
+	axiomProbeOnce   sync.Once
+	axiomProbeWG     sync.WaitGroup
+	axiomProbeMu     sync.Mutex
+	axiomProbeResult []string
+)
 
 func main() {
 	if len(os.Args) < 2 {
@@ -287,7 +318,26 @@ func printResult(r *FuncResult, verbose bool) {
 
 // ---------------------------------------------------------------- discharge
 
-var solverSem = make(chan struct{}, 14)
+// at most one solver process per core (minus one for the translator): oversubscribed solvers run into wall-clock limits
+var solverSem = make(chan struct{}, maxInt(2, runtime.NumCPU()-2))
+
+func maxInt(a, b int) int {
+	if a > b {
+		return a
+	}
+	return b
+}
+
+// Solver budgets. z3 is limited by its deterministic resource counter (rlimit), not by time: the verdict on a given
+// script then does not depend on how fast or how loaded the machine is. Wall-clock limits are only a safety net.
+const (
+	rlimitFirst  = 25000000  // first attempt (roughly 6-10 s of an idle core)
+	rlimitRetry  = 200000000 // last attempt for obligations every solver left open (up to maxRetry per function)
+	wallFirst    = 60 * time.Second
+	wallRetry    = 240 * time.Second
+	wallSecond   = 20 * time.Second // second opinions (z3 4.8.12, cvc5): helpful extras, limited by time
+	maxRetry     = 3
+)
 
 func runSolverLimited(solver, file string, timeout time.Duration) solverResult {
 	solverSem <- struct{}{}
@@ -306,11 +356,28 @@ func (e *Engine) discharge(res *FuncResult, t *tr, body string, opt *Options) {
 	}
 	// One non-incremental script per obligation: the facts that precede it in program order (earlier obligations
 	// assumed), then its negation. Non-incremental solving is far more robust than push/pop (measured: 0.04 s vs unknown).
+	var litSB strings.Builder
+	litSB.WriteString(body)
+	for _, o := range res.Obls {
+		litSB.WriteString(o.Guard)
+		litSB.WriteString(" ")
+		litSB.WriteString(o.Goal)
+		litSB.WriteString("\n")
+	}
+	litText := litSB.String()
 	header := func(solver string, limit time.Duration) string {
 		var sb strings.Builder
-		sb.WriteString(e.buildPrelude(solver))
+		sb.WriteString(e.buildPrelude(solver, litText))
 		if solver != "cvc5" {
-			fmt.Fprintf(&sb, "(set-option :timeout %d)\n", limit.Milliseconds())
+			if solver == "z3-new" || solver == "z3-new-retry" {
+				rl := rlimitFirst
+				if solver == "z3-new-retry" {
+					rl = rlimitRetry
+				}
+				fmt.Fprintf(&sb, "(set-option :rlimit %d)\n", rl)
+			} else {
+				fmt.Fprintf(&sb, "(set-option :timeout %d)\n", limit.Milliseconds())
+			}
 			if opt.Seed != 0 {
 				fmt.Fprintf(&sb, "(set-option :smt.random_seed %d)\n", opt.Seed%1000000)
 			}
@@ -318,7 +385,7 @@ func (e *Engine) discharge(res *FuncResult, t *tr, body string, opt *Options) {
 		return sb.String()
 	}
 	hdr := map[string]string{}
-	for _, s := range []string{"z3-new", "z3", "cvc5"} {
+	for _, s := range []string{"z3-new", "z3-new-retry", "z3", "cvc5"} {
 		hdr[s] = header(s, per)
 	}
 	base := sanitize(res.Key)
@@ -355,8 +422,17 @@ func (e *Engine) discharge(res *FuncResult, t *tr, body string, opt *Options) {
 				vwg.Add(1)
 				go func(solver string) {
 					defer vwg.Done()
-					vf := writeScratch(base+"_vac_"+solver+".smt2", header(solver, 3*time.Second)+full+probe)
-					vr := runSolverLimited(solver, vf, 4*time.Second)
+					// budget: quick - as for one obligation; thorough - the large retry budget (a contradiction between two
+					// crypto axioms needed about 25 s of z3 in the context of Decrypt, and was invisible at 3 s)
+					hs, wall := solver, wallFirst/2
+					if opt.Thorough {
+						wall = wallRetry
+						if solver == "z3-new" {
+							hs = "z3-new-retry"
+						}
+					}
+					vf := writeScratch(base+"_vac_"+solver+".smt2", hdr[hs]+full+probe)
+					vr := runSolverLimited(solver, vf, wall)
 					vmu.Lock()
 					defer vmu.Unlock()
 					res.SolverMs += vr.millis
@@ -378,6 +454,9 @@ func (e *Engine) discharge(res *FuncResult, t *tr, body string, opt *Options) {
 		if opt.KeepSMT != "" && solver == "z3-new" {
 			os.WriteFile(filepath.Join(opt.KeepSMT, fmt.Sprintf("%s__%s.smt2", base, sanitize(o.Name))), []byte(scr), 0644)
 		}
+		if opt.KeepSMT != "" && solver == "z3-new-retry" {
+			os.WriteFile(filepath.Join(opt.KeepSMT, fmt.Sprintf("%s__%s.retry.smt2", base, sanitize(o.Name))), []byte(scr), 0644)
+		}
 		r := runSolverLimited(solver, f, limit)
 		os.Remove(f)
 		st := "unknown"
@@ -391,12 +470,13 @@ func (e *Engine) discharge(res *FuncResult, t *tr, body string, opt *Options) {
 	}
 	var wg sync.WaitGroup
 	nOpen := 0
+	nRetry := 0
 	for k := range res.Obls {
 		wg.Add(1)
 		go func(k int) {
 			defer wg.Done()
 			o := res.Obls[k]
-			st, ms, errs := run(k, "z3-new", per)
+			st, ms, errs := run(k, "z3-new", wallFirst)
 			vmu.Lock()
 			res.SolverMs += ms
 			o.Status, o.Solver, o.Millis = st, "z3-new", ms
@@ -408,6 +488,9 @@ func (e *Engine) discharge(res *FuncResult, t *tr, body string, opt *Options) {
 				if !opt.Thorough || st == "error" {
 					return
 				}
+			}
+			if st != "unsat" && opt.ExpectFail[res.Key+"#"+o.Name] {
+				return // a listed known finding: no second opinions
 			}
 			if st != "unsat" {
 				// a function with many open obligations is broken anyway: do not spend three solvers on each of them
@@ -421,7 +504,7 @@ func (e *Engine) discharge(res *FuncResult, t *tr, body string, opt *Options) {
 			}
 			// second opinion (always in thorough mode: cross-check)
 			for _, solver := range []string{"z3", "cvc5"} {
-				st2, ms2, _ := run(k, solver, per)
+				st2, ms2, _ := run(k, solver, wallSecond)
 				vmu.Lock()
 				res.SolverMs += ms2
 				if st2 == "unsat" && o.Status != "unsat" {
@@ -436,6 +519,23 @@ func (e *Engine) discharge(res *FuncResult, t *tr, body string, opt *Options) {
 				if o.Status == "unsat" && !opt.Thorough {
 					break
 				}
+			}
+			if o.Status != "unsat" && o.Status != "error" && !opt.ExpectFail[res.Key+"#"+o.Name] {
+				// last attempt with an eight times larger budget (a few obligations per function only)
+				vmu.Lock()
+				nRetry++
+				skip := nRetry > maxRetry
+				vmu.Unlock()
+				if skip {
+					return
+				}
+				st3, ms3, _ := run(k, "z3-new-retry", wallRetry)
+				vmu.Lock()
+				res.SolverMs += ms3
+				if st3 == "unsat" {
+					o.Status, o.Solver, o.Millis = "unsat", "z3-new(retry)", ms3
+				}
+				vmu.Unlock()
 			}
 		}(k)
 	}
@@ -476,7 +576,7 @@ func prefixFor(res *FuncResult, body string, o *Obligation) string {
 // is only a candidate); pass 2b asks z3 with MBQI for a real model.
 func (e *Engine) findModel(o *Obligation, t *tr, body, base string, per time.Duration) {
 	relaxed := dropQuantified(body)
-	prel := e.buildPrelude("z3-mbqi")
+	prel := e.buildPrelude("z3-mbqi", body+o.Guard+" "+o.Goal)
 	want := t.modelTerms()
 	q := fmt.Sprintf("(assert (and %s (not %s)))\n(check-sat)\n(get-value (%s))\n", o.Guard, o.Goal, strings.Join(want, " "))
 	f := writeScratch(fmt.Sprintf("%s_%s_relax.smt2", base, sanitize(o.Name)), dropQuantified(prel)+fmt.Sprintf("(set-option :timeout %d)\n", per.Milliseconds())+relaxed+dropQuantified(q))
